@@ -607,6 +607,21 @@ pub fn run_c10(tier: Tier) -> i32 {
                     (Terminal::Panic(_), _) => "C10/panic".to_string(),
                     _ => "C10/mismatch".to_string(),
                 };
+                // (round 7) a transport that fails instead of ending (connection reset): not an end of stream at
+                // all - the responses in front of it are delivered and the error is reported, wherever it strikes
+                {
+                    let expect_err = Expect { responses: expected[..k].to_vec(), ends: vec![Terminal::Io("ConnectionReset".to_string())], alt: None };
+                    let sigf_err = |s: &Session| match &s.end {
+                        Terminal::Clean => "C10/transport-error-reported-as-clean-close".to_string(),
+                        Terminal::Panic(_) => "C10/panic".to_string(),
+                        _ => "C10/mismatch".to_string(),
+                    };
+                    for cuts in sets.iter().take(2) {
+                        for flavor in [Flavor::Sync, Flavor::Async] {
+                            check_session("C10", prefix, cuts, flavor, 0, EndAnswer::Error, &expect_err, false, &mut acc, &sigf_err);
+                        }
+                    }
+                }
                 for cuts in &sets {
                     for flavor in [Flavor::Sync, Flavor::Async] {
                         check_session("C10", prefix, cuts, flavor, 0, EndAnswer::Eof, &expect, false, &mut acc, &sigf);
@@ -738,7 +753,7 @@ pub fn run_c10(tier: Tier) -> i32 {
     let acc = acc.merge(gacc);
     let cov = proto_coverage(
         &acc,
-        "every stream of the bounded response grammar x every cut position 0..=n (stream truncated there, then EOF) x {one read, one byte at a time, every single cut of the surviving prefix} x {blocking, async, async with the receive() future dropped at the 1st/2nd/3rd read and called again}; sequences of large binary components (with fields in front, and bare) cut around every component boundary and every 997 bytes; plus every proper prefix of two greetings under all segmentations; non-trivial = (stream, cut position) pairs",
+        "every stream of the bounded response grammar x every cut position 0..=n (stream truncated there, then EOF) x {one read, one byte at a time, every single cut of the surviving prefix} x {blocking, async, the same with a transport error (connection reset) instead of the end, async with the receive() future dropped at the 1st/2nd/3rd read and called again}; sequences of large binary components (with fields in front, and bare) cut around every component boundary and every 997 bytes; plus every proper prefix of two greetings under all segmentations; non-trivial = (stream, cut position) pairs",
         json!({"cut_positions": "all", "long_streams": "cuts within +-2 of structural boundaries (thorough tier)"}),
     );
     finish(&ctx, cov, acc.viol)
